@@ -232,6 +232,12 @@ Theorem C01_fp_column_rounding :
 Proof. exact col_rounding_transposed. Qed.
 Print Assumptions C01_fp_column_rounding.
 
+Theorem C01_fp_loop_is_computed :
+  forall (fused : bool) (n ip : Z) (idx : Z -> Z) (wh r : Z -> R),
+    col_computed n ip idx wh r (col_loop fused ip idx wh r).
+Proof. exact col_loop_computed. Qed.
+Print Assumptions C01_fp_loop_is_computed.
+
 (** the 3-point operator of the model: an interior-supported column keeps its sum up to that term *)
 Theorem C01_fp3_rounding :
   forall (e1 delta : R) (p : Z -> R) (v n le m : Z) (wh r out : Z -> R),
